@@ -1260,7 +1260,7 @@ fn sess_record(sink: &mut Sink, c: SessCase, out: SessOut) {
 
 fn gen_window(rng: &mut Rng, n: u64) -> (u64, u64) {
     match rng.below(8) {
-        0 => (0, n + 5),
+        0 => (if n > 200 { n - 30 } else { 0 }, n + 5),
         1 => {
             let a = rng.below(n + 1);
             (a, a)
@@ -1332,7 +1332,7 @@ fn gen_sess(rng: &mut Rng, racing: bool, sorted: bool) -> SessCase {
                 ops.push(SOp::New { settle, is_stream: true, binary: true, fs: gen_filters(rng), start, end });
             }
             4 => ops.push(SOp::Search { k: rng.below(kinds.len() as u64) as usize, start: rng.below(n + 2), maxr: *rng.pick(&[0u64, 1, 1, 2, 3, 100]), fs: gen_filters(rng) }),
-            5 | 6 => ops.push(SOp::Pages { k: rng.below(kinds.len() as u64) as usize, start: rng.below(n / 2 + 1), maxr: if racing { 40 + rng.below(100) } else { *rng.pick(&[1u64, 1, 2, 3, 5]) }, fs: gen_filters(rng) }),
+            5 | 6 => ops.push(SOp::Pages { k: rng.below(kinds.len() as u64) as usize, start: if racing { n.saturating_sub(1 + rng.below(2500)) } else { rng.below(n / 2 + 1) }, maxr: if racing { 40 + rng.below(100) } else { *rng.pick(&[1u64, 1, 2, 3, 5]) }, fs: gen_filters(rng) }),
             7 => ops.push(SOp::LookIdx { k: rng.below(kinds.len() as u64) as usize, idx: rng.below(n + 2) }),
             8 => ops.push(SOp::LookTime { k: rng.below(kinds.len() as u64) as usize, t_ms: BASE_US / 1000 + rng.below(max_ts / 10 + 3) }),
             _ => {
@@ -1466,7 +1466,7 @@ fn corpus_sess() -> Vec<SessCase> {
                 SOp::New { settle: false, is_stream: false, binary: true, fs: vec![(0, 1, 1)], start: 8990, end: 9010 },
                 SOp::New { settle: false, is_stream: true, binary: true, fs: vec![(1, 1, 0)], start: 17990, end: 18010 },
                 SOp::Window { settle: true, k: 1, start: 8995, end: 9005 },
-                SOp::Pages { k: 1, start: 8000, maxr: 400, fs: vec![(0, 2, 1)] },
+                SOp::Pages { k: 1, start: 17200, maxr: 300, fs: vec![(0, 2, 1)] },
                 SOp::LookTime { k: 1, t_ms: t(900) },
                 SOp::LookIdx { k: 1, idx: 100 },
             ],
